@@ -90,8 +90,70 @@ theorem AFB2D_isometry (hr0 hr1 hc0 hc1 : List R) (hLr : 2 ≤ hr0.length) (hLre
     (fun c hc => isometry hc0 hc1 c hLc hLce hwc horc (by rw [hc]; exact hHe) (by rw [hc]; omega)) (lH hc0) (lH hc1) _ (rA hr1) hH (by omega)
   rw [← iW, ← iH0, ← iH1]; ring
 
-end WV.C17K
 
+/-! ### the whole 2-D pyramid -/
+
+/-- every level's input has even sides not shorter than the filters -/
+def LevelsOK2 (Lc Lr : Nat) : Nat → Nat → Nat → Prop
+  | 0, _, _ => True
+  | J+1, H, W => H % 2 = 0 ∧ W % 2 = 0 ∧ Lc ≤ H ∧ Lr ≤ W ∧ LevelsOK2 Lc Lr J (H / 2) (W / 2)
+
+/-- energy of an image (of any shape): the sum of the squares of its samples -/
+def energy2 (x : Img R) : R := dot2 x.length x.width x x
+
+theorem energy2_rect (x : Img R) (H W : Nat) (hx : Rect x H W) (hH : 1 ≤ H) : energy2 x = dot2 H W x x := by
+  unfold energy2; rw [hx.1, rect_width x H W hx hH]
+
+/-- **the J-level 2-D DWT is an isometry** (implementation model of `DWTForward`, periodization, orthonormal column and row
+banks): `‖yl‖² + Σ_j (‖lh_j‖² + ‖hl_j‖² + ‖hh_j‖²) = ‖x‖²` whenever every level has even sides not shorter than the filters -/
+theorem DWT2D_isometry (hr0 hr1 hc0 hc1 : List R) (hLr : 2 ≤ hr0.length) (hLre : hr0.length % 2 = 0) (hwr : hr1.length = hr0.length)
+    (hLc : 2 ≤ hc0.length) (hLce : hc0.length % 2 = 0) (hwc : hc1.length = hc0.length)
+    (horr : PRBank hr0 hr1 hr0.reverse hr1.reverse) (horc : PRBank hc0 hc1 hc0.reverse hc1.reverse) :
+    ∀ (J : Nat) (x : Img R) (H W : Nat), Rect x H W → 1 ≤ H → 1 ≤ W → LevelsOK2 hc0.length hr0.length J H W →
+      ∃ yl yh, DWTForward .periodization hc0.reverse hc1.reverse hr0.reverse hr1.reverse J [x] = some ([yl], yh) ∧
+        energy2 yl + (yh.map fun lvl => ((lvl.getD 0 []).map energy2).sum).sum = energy2 x
+  | 0, x, H, W, _, _, _, _ => ⟨x, [], by simp [DWTForward], by simp⟩
+  | J+1, x, H, W, hx, hH, hW, hok => by
+    obtain ⟨hHe, hWe, hfH, hfW, hrest⟩ := hok
+    obtain ⟨ll, lh, hl, hh, hf, hid⟩ := AFB2D_isometry hr0 hr1 hc0 hc1 hLr hLre hwr hLc hLce hwc horr horc x H W hx hHe hWe hfH hfW
+    -- the shape of the next level's input
+    have hfv := C05P.AFB2D_forward_val hr0 hr1 hc0 hc1 hLr hLre hwr hLc hLce hwc H W hH hW (by omega) (by omega) x hx
+    rw [hfv] at hf
+    simp only [Option.some.injEq, Prod.mk.injEq, List.cons.injEq, and_true] at hf
+    obtain ⟨e1, e2, e3, e4⟩ := hf
+    have eH : (H + H % 2) / 2 = H / 2 := by omega
+    have eW : (W + W % 2) / 2 = W / 2 := by omega
+    have rW : ∀ w : List R, Rect (alongW (Ap w) x) H (W / 2) := by
+      intro w
+      rw [alongW_get' (Ap w) x H W _ hx (fun c hc => by rw [Ap_length, hc, eW])]
+      exact tab2_rect _ _ _
+    have rB : ∀ (wc wr : List R), Rect (alongH (Ap wc) (alongW (Ap wr) x)) (H / 2) (W / 2) := by
+      intro wc wr
+      rw [alongH_get' (Ap wc) _ H (H / 2) (W / 2) (rW wr) hH (by omega) (fun c hc => by rw [Ap_length, hc, eH])]
+      exact tab2_rect _ _ _
+    have rll : Rect ll (H / 2) (W / 2) := by rw [← e1]; exact rB hc0 hr0
+    have hH2 : 1 ≤ H / 2 := by omega
+    have hW2 : 1 ≤ W / 2 := by omega
+    obtain ⟨yl, yh, hrec, hen⟩ := DWT2D_isometry hr0 hr1 hc0 hc1 hLr hLre hwr hLc hLce hwc horr horc J ll (H / 2) (W / 2) rll hH2 hW2 hrest
+    refine ⟨yl, [[lh, hl, hh]] :: yh, ?_, ?_⟩
+    · simp only [DWTForward]
+      rw [hfv]
+      simp only [Option.bind_eq_bind, Option.bind_some]
+      rw [e1, hrec]
+      simp only [Option.bind_some]
+      rw [e2, e3, e4]
+    · simp only [List.map_cons, List.sum_cons, List.getD_cons_zero, List.map_nil, List.sum_nil, add_zero]
+      have rlh : Rect lh (H / 2) (W / 2) := by rw [← e2]; exact rB hc1 hr0
+      have rhl : Rect hl (H / 2) (W / 2) := by rw [← e3]; exact rB hc0 hr1
+      have rhh : Rect hh (H / 2) (W / 2) := by rw [← e4]; exact rB hc1 hr1
+      rw [energy2_rect lh _ _ rlh hH2, energy2_rect hl _ _ rhl hH2, energy2_rect hh _ _ rhh hH2, energy2_rect x H W hx hH, ← hid,
+        ← energy2_rect ll _ _ rll hH2, ← hen]
+      ring
+
+/-- the level condition is satisfiable: a 16 × 8 image, two levels, 4-tap filters -/
+example : LevelsOK2 4 4 2 16 8 := by simp [LevelsOK2]
+
+end WV.C17K
 namespace WV.C17K
 open WV WV.C04
 /-- the size hypotheses are satisfiable (with the orthonormal integer bank of C17's example, length 4): a 4 × 4 image -/
